@@ -7,7 +7,7 @@
               tip, revno, testaments (every revision of the ancestry with its strict testament sha1), parents, tags,
               hasTree, wt (working tree entries), wtparents, changes (iter_changes against the basis), disk, tipTree
    C52: history and tags always unchanged; the working tree unchanged where the layout keeps it; a created tree is a
-   clean checkout of the tip; a refused operation changes nothing. *)
+   clean checkout of the tip; a refused operation (or one that had to be interrupted: rout = "diverges") changes nothing. *)
 EXTENDS LayoutAlgebra, Json, IOUtils, SequencesExt
 Rows == JsonDeserialize(IOEnv.VF_IN)
 VARIABLE i
